@@ -389,6 +389,60 @@ pub fn analysed(c: &RosCase) -> (ArrSpec, u64) {
 }
 
 pub fn compare(c0: &RosCase) -> (u64, u64, Vec<(String, String, Value)>) {
+    compare_with(c0, LIMIT)
+}
+
+pub const LIMIT_LARGE: u64 = 2500;
+
+/// Executors that are not tiny: three (thorough: four) callbacks with periods, jitters and costs
+/// in the tens and hundreds, reservations with periods 10..25.
+pub fn large_cases(quick: bool) -> Vec<RosCase> {
+    let menu: Vec<(u64, u64, u64)> = vec![(20, 0, 2), (30, 45, 3), (50, 0, 5), (100, 250, 4), (15, 0, 1), (40, 40, 6)];
+    let sups = vec![SupplySpec::Dedicated, SupplySpec::Periodic { q: 5, p: 10 }, SupplySpec::Constrained { q: 6, dl: 9, p: 25 }];
+    let ncb = if quick { 3 } else { 4 };
+    let n = menu.len();
+    let mut v = vec![];
+    for i in 0..n.pow(ncb as u32) {
+        let idx = crate::props::uni::product_index(i as u64, n, ncb);
+        let acs: Vec<AC> = idx.iter().map(|k| (ArrSpec::Sporadic { t: menu[*k].0, j: menu[*k].1 }, CostSpec::Scalar(menu[*k].2))).collect();
+        for sup in &sups {
+            let limit = LIMIT_LARGE;
+            v.push(RosCase::EventSource { supply: sup.clone(), demand: acs.clone(), limit });
+            v.push(RosCase::Timer { supply: sup.clone(), own: acs[0].clone(), hp: acs[1..].to_vec(), blocking: 5, limit });
+            v.push(RosCase::Pp { supply: sup.clone(), own: acs[0].clone(), others: acs[1..].to_vec(), limit });
+            v.push(RosCase::Chain { supply: sup.clone(), src: acs[0].0.clone(), costs: vec![acs[1].1.clone(), acs[0].1.clone()], others: acs[1..].to_vec(), limit });
+            let patterns: Vec<Vec<Kind>> = vec![
+                vec![Kind::Timer, Kind::PolledUnknown, Kind::PolledUnknown, Kind::Timer],
+                vec![Kind::Polled(0), Kind::Polled(1), Kind::Polled(2), Kind::Polled(3)],
+                vec![Kind::Polled(3), Kind::Polled(1), Kind::Polled(2), Kind::Polled(0)],
+                vec![Kind::PolledUnknown, Kind::Timer, Kind::EventSource, Kind::Polled(1)],
+            ];
+            for bw in [false, true] {
+                for kinds in &patterns {
+                    for sc in [vec![0usize], vec![1, 0]] {
+                        for amode in [0u8, 1] {
+                            let workload: Vec<CbCase> = idx
+                                .iter()
+                                .enumerate()
+                                .map(|(pos, k)| CbCase {
+                                    arr: acs[pos].0.clone(),
+                                    cost: acs[pos].1.clone(),
+                                    kind: kinds[pos],
+                                    assumed: if amode == 0 { menu[*k].0 } else { 2 * menu[*k].0 + menu[*k].1 },
+                                })
+                                .collect();
+                            v.push(RosCase::Sub { bw, supply: sup.clone(), workload, subchain: sc.clone(), limit });
+                        }
+                    }
+                }
+            }
+        }
+    }
+    v
+}
+
+/// `big` = the generous divergence limit of the box the case belongs to
+pub fn compare_with(c0: &RosCase, big: u64) -> (u64, u64, Vec<(String, String, Value)>) {
     let mut out = vec![];
     let want_big = match catch(|| ref_ros(c0)) {
         Ok(v) => v,
@@ -401,10 +455,10 @@ pub fn compare(c0: &RosCase) -> (u64, u64, Vec<(String, String, Value)>) {
             return (0, 0, out);
         }
     };
-    let mut limits = vec![LIMIT];
+    let mut limits = vec![big];
     if let Some(r) = want_big {
         for l in [r.saturating_sub(1), r, r + 2] {
-            if l <= LIMIT && l > 0 && !limits.contains(&l) {
+            if l <= big && l > 0 && !limits.contains(&l) {
                 limits.push(l);
             }
         }
@@ -416,7 +470,7 @@ pub fn compare(c0: &RosCase) -> (u64, u64, Vec<(String, String, Value)>) {
     let mut nt = 0;
     for l in limits {
         let c = set_limit(c0, l);
-        let want = if l == LIMIT { want_big } else { ref_ros(&c) };
+        let want = if l == big { want_big } else { ref_ros(&c) };
         let got = catch(|| run_ros(&c));
         n += 1;
         if want.map(|w| w > wcet).unwrap_or(false) {
@@ -468,6 +522,28 @@ pub fn run(ctx: &mut Ctx) -> (String, Value, Vec<String>) {
         bad.lock().unwrap().extend(m);
         *per.lock().unwrap().entry(name(c).to_string()).or_insert(0) += k;
     });
+    // the large-parameter box
+    let lc = large_cases(ctx.quick());
+    let ln = AtomicU64::new(0);
+    let lok = AtomicU64::new(0);
+    let lmax = AtomicU64::new(0);
+    lc.par_iter().for_each(|c| {
+        let (k, t, m) = compare_with(c, LIMIT_LARGE);
+        n.fetch_add(k, Ordering::Relaxed);
+        ln.fetch_add(k, Ordering::Relaxed);
+        nt.fetch_add(t, Ordering::Relaxed);
+        if let Some(r) = catch(|| run_ros(c)).ok().and_then(|o| o.ok()) {
+            lok.fetch_add(1, Ordering::Relaxed);
+            lmax.fetch_max(r, Ordering::Relaxed);
+        }
+        if !m.is_empty() {
+            let mut b = bad.lock().unwrap();
+            if b.len() < 400 {
+                b.extend(m);
+            }
+        }
+        *per.lock().unwrap().entry(name(c).to_string()).or_insert(0) += k;
+    });
     let mut bad = bad.into_inner().unwrap();
     bad.sort_by(|a, b| a.1.len().cmp(&b.1.len()));
     for (k, w, c) in bad {
@@ -484,6 +560,8 @@ pub fn run(ctx: &mut Ctx) -> (String, Value, Vec<String>) {
         "distinct_nontrivial": nt.load(Ordering::Relaxed),
         "rule": "every case of the box (analysis x supply x workload x kinds x assumed bounds x subchain) x limits {120, R-1, R, R+2} is one comparison of the real analysis with the naive evaluator (every offset / activation, linear-scan fixed points, SBF = min over all paths of the reservation automaton); non-trivial = naive result exceeds the analysed callback's WCET (divergences are compared too but not counted)",
         "cases": cs.len(),
+        "large_parameter_box": {"rule": "three (thorough: four) callbacks drawn with repetition, in every order, from (T,J,C) in {(20,0,2),(30,45,3),(50,0,5),(100,250,4),(15,0,1),(40,40,6)} x supplies {dedicated, Periodic(5,10), Constrained(6,9,25)} x all six analyses (rr/bw: four kind patterns, singleton and two-element subchains, assumed bounds T and 2T+J); limits {2500, R-1, R, R+2}",
+                                "cases": lc.len(), "comparisons": ln.load(Ordering::Relaxed), "cases_with_ok_result": lok.load(Ordering::Relaxed), "largest_ok_result": lmax.load(Ordering::Relaxed)},
         "comparisons_per_analysis": *per.lock().unwrap(),
         "samples": samples,
         "exhaustive": true,
